@@ -4,7 +4,7 @@
 export GOFLAGS=-mod=mod GOPROXY=off GOSUMDB=off GOTOOLCHAIN=local
 patch=$(readlink -f "$1"); shift
 cd "$(dirname "$(readlink -f "$0")")/.." || exit 2   # (/verif, or a vp-run snapshot of it)
-exec 9>/tmp/repo.lock; flock 9   # (see tools/thorough_sweep.sh)
+exec 9>>/tmp/repo.lock; flock 9; export VERIF_REPO_LOCK_HELD=1   # (see tools/thorough_sweep.sh)
 [ -n "$(git -C /repo status --porcelain)" ] && { echo "/repo not clean"; exit 2; }
 git -C /repo apply "$patch" || { echo "patch does not apply"; exit 2; }
 trap 'git -C /repo checkout -q -- . ; git -C /repo clean -fdq' EXIT
